@@ -119,7 +119,11 @@ pub fn spell(from: &str, target: &str, variant: u8) -> String {
         0 => rel,
         1 => format!("./{rel}"),
         2 => format!("zz/../{rel}"),
-        _ => format!("./zz/./../{rel}"),
+        3 => format!("./zz/./../{rel}"),
+        // a blank in a name may be written as it is or as %20; blanks around the whole
+        // string are not part of it (URL parsing strips them)
+        4 => rel.replace(' ', "%20"),
+        _ => format!("{} ", rel.replace(' ', "%20")),
     }
 }
 
@@ -589,10 +593,11 @@ pub fn gen_scenario(rng: &mut Rng) -> Scenario {
     let shape = rng.weighted(&[4, 2, 2, 2, 1]); // dag, chain, diamond-ish dense dag, with back edge, random
     let mut modules: Vec<ModuleSpec> = (0..n)
         .map(|i| {
-            let path = if rng.chance(1, 3) {
-                format!("d{}/m{i}.oal", rng.below(2))
-            } else {
-                format!("m{i}.oal")
+            let path = match rng.below(9) {
+                0..=2 => format!("d{}/m{i}.oal", rng.below(2)),
+                3 => format!("m {i}.oal"),
+                4 => format!("d 1/m{i}.oal"),
+                _ => format!("m{i}.oal"),
             };
             ModuleSpec {
                 path,
@@ -603,7 +608,7 @@ pub fn gen_scenario(rng: &mut Rng) -> Scenario {
     let add = |modules: &mut Vec<ModuleSpec>, rng: &mut Rng, a: usize, b: usize| {
         modules[a].imports.push(Import {
             target: Target::Module(b),
-            spelling: rng.below(4) as u8,
+            spelling: rng.below(6) as u8,
             qualified: rng.chance(3, 4),
         });
     };
@@ -657,7 +662,7 @@ pub fn gen_scenario(rng: &mut Rng) -> Scenario {
         let a = rng.below(n);
         if let Some(imp) = modules[a].imports.first().cloned() {
             let mut d = imp;
-            d.spelling = rng.below(4) as u8;
+            d.spelling = rng.below(6) as u8;
             d.qualified = rng.chance(1, 2);
             modules[a].imports.push(d);
         }
@@ -665,7 +670,7 @@ pub fn gen_scenario(rng: &mut Rng) -> Scenario {
     // missing targets
     if rng.chance(1, 5) {
         let a = rng.below(n);
-        let sp = rng.below(4) as u8;
+        let sp = rng.below(6) as u8;
         modules[a].imports.push(Import {
             target: Target::Missing(format!("x{}.oal", rng.below(3))),
             spelling: sp,
@@ -687,7 +692,7 @@ pub fn variant(scn: &Scenario, rng: &mut Rng) -> Scenario {
     for m in v.modules.iter_mut() {
         rng.shuffle(&mut m.imports);
         for imp in m.imports.iter_mut() {
-            imp.spelling = rng.below(4) as u8;
+            imp.spelling = rng.below(6) as u8;
         }
     }
     v
